@@ -95,6 +95,30 @@ def gen_ops(rng, obs, nops):
             if rng.random() < 0.5:
                 i = rng.randrange(8)
                 ops.append([rng.choice(["fit", "override"]), rng.randrange(64), i, rng.choice([0, 1, 2]), rng.randrange(64)])
+    # overflow scenario (C09: "also for tours using the infinitely distant overflow depot"): a tour on the overflow depot
+    # gets ONE of its depots replaced by a real one through a path insertion, later the other one (both orders, also
+    # both at once), with depot places freed by deleting vehicles first
+    if rng.random() < 0.5:
+        for _ in range(rng.choice([1, 2])):
+            if rng.random() < 0.6:
+                ops.append(["delete", 2000 + rng.randrange(8)])
+            ty = rng.randrange(nt)
+            ch1 = netobs.random_chain(rng, obs, ty, density=0.3)
+            ch2 = netobs.random_chain(rng, obs, ty, density=0.3)
+            if not ch1 or not ch2:
+                continue
+            first = rng.choice(["start", "end", "both"])
+            v = 5000 + rng.randrange(4)
+            if first == "start":
+                ops.append(["addpath", v, [rng.choice(obs.sdepots)] + ch1])
+                ops.append(["addpath", rng.choice([3000, 2000 + rng.randrange(8), v]), ch2 + [rng.choice(obs.edepots)]])
+            elif first == "end":
+                ops.append(["addpath", v, ch1 + [rng.choice(obs.edepots)]])
+                ops.append(["addpath", rng.choice([3000, 2000 + rng.randrange(8), v]), [rng.choice(obs.sdepots)] + ch2])
+            else:
+                ops.append(["addpath", v, [rng.choice(obs.sdepots)] + ch1 + [rng.choice(obs.edepots)]])
+            if rng.random() < 0.5:
+                ops.append(["improve", []])
     # transition scenario: the optimiser's move (a vehicle to the end of another cycle, possibly emptying its own and
     # refilling an empty one) stored with set_next_day_transitions, then operations that add / remove / update vehicles
     # of those cycles (spawn reuses empty cycles; delete; improve)
